@@ -41,6 +41,9 @@ CHECKS["C11"] = ("exploration", "E1", "bounded exhaustive enumeration of (functi
 CHECKS["C12"] = ("exploration", "E1", "bounded exhaustive enumeration of (function, successful wholly known argument list, weakening) triples; abstract run compared with the concrete run and with further concretisations through a reference concretisation relation",
   "Every stdlib function of the C11 table x every wholly known seed argument list on which the call succeeds x every replacement of one argument or one nested member by a typed unknown (bare, not-null, or with numeric-bound / prefix / length refinements true of the replaced part; thorough: pairs of replacements in two arguments): the weakened call must succeed and its result must admit the concrete result (type, nullness, bounds, prefix, length, every known part) and the concrete results of up to 3 other values the unknown admits; wholly known arguments give wholly known results.",
   "trusted: admits() with the documented number equality at range ends; bound: seed alphabets of stdfn.go, one (thorough two) weakened positions, depth<=2", "§3 C12")
+CHECKS["C13"] = ("exploration", "E1", "bounded exhaustive enumeration of wholly known argument lists; differential comparison with reference implementations over plain Go slices and maps (Ok / DomainError / Unspecified)",
+  "Each of the 27 collection, set and sequence functions x the full Cartesian product of its per-position seed alphabets (empty/non-empty collections, duplicates, null members, list/tuple and map/object forms, negative, fractional, huge and out-of-range indices, sizes and steps, null arguments where accepted): where the reference is specified the call must succeed with exactly the reference's value and type, and must fail exactly on arguments outside the documented domain.",
+  "trusted: the reference functions of c13.go (written from descriptions and doc comments); Unspecified zones: element-type unification, order of sets of non-primitive members, huge indices, precision-boundary cases of range", "§3 C13/C14, §8")
 NOT_YET = {}
 props = [json.loads(l) for l in open('/verif/properties.jsonl')]
 checks = []
